@@ -69,6 +69,10 @@ func getDistillationFunc(dm *model.DecisionMaker) *utils.LinearFunctionParameter
 	} else {
 		parameters := utils.LinearFunctionParameters{}
 		utils.DecodeToStruct(params, &parameters)
+		// credibilities lie in [0,1]; a negative value there makes the distillation recurse without progress
+		if parameters.B < 0 || parameters.A+parameters.B < 0 {
+			panic(fmt.Errorf("electre distillation function %v must not be negative for credibilities in [0,1]", parameters))
+		}
 		return &parameters
 	}
 }
